@@ -29,7 +29,7 @@ PROPERTY = "C03"
 LEVEL = "exploration"
 ops.AVOID_NODE_OUTPUTS_ON_GRAPH_INPUTS = True
 TIERS = {
-    "quick": {"wall": 33, "optimize_wall": 7, "chunk": 40, "shrink_budget": 300, "shrink_wall": 60},
+    "quick": {"max_runs": 5000, "optimize_runs": 1000, "wall": 420, "optimize_wall": 180, "chunk": 40, "shrink_budget": 300, "shrink_wall": 60},
     "thorough": {"wall": 600, "optimize_wall": 90, "chunk": 100, "shrink_budget": 600, "shrink_wall": 240},
 }
 RULE = (
